@@ -156,6 +156,10 @@ type executor struct {
 	expl, deflt map[int]*rdef
 	all         []*rdef
 	resolved    bool
+	// maybeResolved: an InjectTo request was made that resolved nothing through this provider (no
+	// field tagged for it). Whether that request already is "the first resolution" after which
+	// definitions are refused is not said by the statement: the next definition decides.
+	maybeResolved bool
 	memo        map[int]*Inst
 	stack       []int
 	pending     [][]int
@@ -576,6 +580,15 @@ func (x *executor) inject(call func(interface{}) error, fields []Field, nested b
 	x.failures += x.fl.fails
 	x.fl.fails = 0
 	var targets []int
+	anyDep := false
+	for _, f := range fields {
+		if f.Tag == "dep" {
+			anyDep = true
+		}
+	}
+	if !anyDep && !x.resolved {
+		x.maybeResolved = true
+	}
 	for _, f := range fields {
 		if f.Tag == "dep" {
 			n := norm(f.Target)
@@ -856,9 +869,16 @@ func (x *executor) define(dp app.DependencyProvider, op DefOp) {
 	if prev == nil {
 		d := x.newDef(op)
 		if err := x.call(dp, d); err != nil {
+			if x.maybeResolved {
+				// the earlier InjectTo without a tagged field counted as the first resolution here
+				x.resolved = true
+				x.labels["inject-without-tagged-field-counted-as-first-resolution"] = true
+				return
+			}
 			x.fail("definition", "%s(%s) before any resolution, first definition of its kind for that name, was refused: %v", op.Op, nameOf(name), err)
 			return
 		}
+		x.maybeResolved = false // accepted: the provider is still open
 		table[name] = d
 		return
 	}
